@@ -1,3 +1,4 @@
+import Btdht.Proofs.GuardTie.Token
 import Btdht.Proofs.Token
 /-!
 # C06 — Announce tokens: bound to the requester IP, valid ≥ 10 min, dead by 30 min
